@@ -42,6 +42,7 @@ type world struct {
 		Stop() <-chan struct{}
 		VerifPort() int
 		VerifTxtRecords() map[string]string
+		VerifResponderTxt() map[string]string
 		XHMURI() (string, error)
 	}
 	port           int
@@ -486,6 +487,12 @@ func runStack(id string, toks []string) (res string) {
 			} else {
 				emit(fmt.Sprintf("PSPLIT=%d/%s", r.status, other))
 			}
+		case "DUPW":
+			emit(w.sameWriteFromTwo(p[1], p[2], p[3], p[4]))
+		case "RSC":
+			emit(w.resetAndReconnectSamePort(p[1]))
+		case "NSI":
+			emit(w.sharedSourceBehindIdentify(p[1], p[2], p[3]))
 		case "LSPLIT":
 			// LSPLIT:<c>:<aid.iid>:<v1>/<v2>/...  connection c sends the headers of a subscription request for the characteristic;
 			// while its body is outstanding (the request is being handled) the application sets the values one after the
@@ -1496,4 +1503,178 @@ func (w *world) injectBehindFinish(ctrl, cid, attempts string) string {
 		return fmt.Sprintf("INJ=none/%d", ran)
 	}
 	return fmt.Sprintf("INJ=hit%d/%d", hits, ran)
+}
+
+
+// sharedSourceBehindIdentify: NSI:<ctrl>:<aid.iid>:<n>
+// Two connections that the accessory sees under the SAME remote ip:port (one local ip:port, destinations 127.0.0.1 and
+// 127.0.0.2).  The first never pair-verifies: it sends POST /identify (the application's identify callback takes 300 ms) and,
+// in the same segment, a write of `true` to the boolean characteristic.  While the callback runs, the second connection
+// pair-verifies as <ctrl> and reads.  The first connection's write must not be served: verification does not carry over.
+// Emits NSI=refused/<n>, NSI=served<k>/<n>, or NSI=unsupported.
+func (w *world) sharedSourceBehindIdentify(ctrl, cid, ns string) string {
+	c := w.find(cid)
+	if c == nil {
+		return "NSI=nochar"
+	}
+	n, _ := strconv.Atoi(ns)
+	ids := strings.Split(cid, ".")
+	aid, _ := strconv.Atoi(ids[0])
+	iid, _ := strconv.Atoi(ids[1])
+	w.accs[0].OnIdentify(func() { time.Sleep(300 * time.Millisecond) })
+	defer w.accs[0].OnIdentify(func() {})
+	served, ran := 0, 0
+	for i := 0; i < n; i++ {
+		c.UpdateValue(false)
+		ca, cb, err := dialSharedSource(w.port)
+		if err != nil {
+			return "NSI=unsupported"
+		}
+		ran++
+		body := fmt.Sprintf(`{"characteristics":[{"aid":%d,"iid":%d,"value":true}]}`, aid, iid)
+		seg := "POST /identify HTTP/1.1\r\nHost: x\r\nContent-Length: 0\r\n\r\n" +
+			fmt.Sprintf("PUT /characteristics HTTP/1.1\r\nHost: x\r\nContent-Length: %d\r\n\r\n%s", len(body), body)
+		ca.c.Write([]byte(seg))
+		time.Sleep(50 * time.Millisecond)
+		w.conns["nsi-b"] = cb
+		w.pairVerify("nsi-b", ctrl, "ok")
+		if !cb.dead {
+			cb.request("GET", fmt.Sprintf("/characteristics?id=%s", cid), "", nil)
+		}
+		time.Sleep(450 * time.Millisecond)
+		if b, ok := c.GetValue().(bool); ok && b {
+			served++
+		}
+		ca.c.Close()
+		cb.c.Close()
+		delete(w.conns, "nsi-b")
+		delete(w.verifs, "nsi-b")
+		time.Sleep(20 * time.Millisecond)
+	}
+	c.UpdateValue(false)
+	if served == 0 {
+		return fmt.Sprintf("NSI=refused/%d", ran)
+	}
+	return fmt.Sprintf("NSI=served%d/%d", served, ran)
+}
+
+
+// resetAndReconnectSamePort: RSC:<n>
+// A peer sends a pair-setup start request and resets its connection at once (while the handler computes); it connects again
+// from the SAME local port and, after the handler of the first connection has returned, sends a correct start request on
+// the new connection.  That request must be answered with M2.  Emits RSC=ok/<rounds> or RSC=unanswered<k>/<rounds>.
+func (w *world) resetAndReconnectSamePort(ns string) string {
+	n, _ := strconv.Atoi(ns)
+	m1 := tlvEncode([]tlvItem{{tState, []byte{1}}, {tMethod, []byte{0}}})
+	req := []byte(fmt.Sprintf("POST /pair-setup HTTP/1.1\r\nHost: x\r\nContent-Type: %s\r\nContent-Length: %d\r\n\r\n%s", tlvCT, len(m1), m1))
+	addr := fmt.Sprintf("127.0.0.1:%d", w.port)
+	bad, done := 0, 0
+	for attempt := 0; done < n && attempt < 10*n; attempt++ {
+		d1 := net.Dialer{LocalAddr: &net.TCPAddr{IP: net.IPv4(127, 0, 0, 1), Port: 0}, Timeout: time.Second}
+		c1, err := d1.Dial("tcp", addr)
+		if err != nil {
+			continue
+		}
+		local := c1.LocalAddr().(*net.TCPAddr)
+		c1.Write(req)
+		time.Sleep(500 * time.Microsecond)
+		c1.(*net.TCPConn).SetLinger(0)
+		c1.Close()
+		var c2 net.Conn
+		d := net.Dialer{LocalAddr: &net.TCPAddr{IP: local.IP, Port: local.Port}, Timeout: time.Second}
+		for i := 0; i < 200; i++ {
+			if c2, err = d.Dial("tcp", addr); err == nil {
+				break
+			}
+			time.Sleep(100 * time.Microsecond)
+		}
+		if err != nil {
+			continue
+		}
+		done++
+		time.Sleep(300 * time.Millisecond)
+		cc := &ctlConn{c: c2}
+		cc.raw = bufio.NewReader(c2)
+		cc.br = cc.raw
+		r, err := cc.request("POST", "/pair-setup", tlvCT, m1)
+		if err != nil || r.status != 200 || !bytes.Contains(r.body, []byte{6, 1, 2}) {
+			bad++
+		}
+		c2.Close()
+		time.Sleep(50 * time.Millisecond)
+	}
+	if done == 0 {
+		return "RSC=unsupported"
+	}
+	if bad == 0 {
+		return fmt.Sprintf("RSC=ok/%d", done)
+	}
+	return fmt.Sprintf("RSC=unanswered%d/%d", bad, done)
+}
+
+
+// sameWriteFromTwo: DUPW:<ca>:<cb>:<sub>:<rounds>
+// Two verified controllers write the SAME new value to the On characteristic of every extra accessory (nacc=) at the same time,
+// round after round; a third one is subscribed to all of them.  Each characteristic changed once per round: the subscriber gets
+// exactly one event per characteristic and round.  Emits DUPW=ok/<rounds>, or DUPW=events<k>_for<n>@<round>.
+func (w *world) sameWriteFromTwo(can, cbn, subn, rs string) string {
+	ca, cb, sub := w.conns[can], w.conns[cbn], w.conns[subn]
+	if ca == nil || cb == nil || sub == nil || ca.dead || cb.dead || sub.dead {
+		return "DUPW=noconn"
+	}
+	rounds, _ := strconv.Atoi(rs)
+	type id struct{ aid, iid uint64 }
+	var targets []id
+	for _, a := range w.accs[4:] {
+		for _, sv := range a.Services {
+			for _, c := range sv.Characteristics {
+				if c.Type == characteristic.TypeOn {
+					targets = append(targets, id{a.ID, c.ID})
+				}
+			}
+		}
+	}
+	if len(targets) == 0 {
+		return "DUPW=notargets"
+	}
+	body := func(val interface{}, ev bool) []byte {
+		var es []interface{}
+		for _, t := range targets {
+			m := map[string]interface{}{"aid": t.aid, "iid": t.iid}
+			if ev {
+				m["ev"] = true
+			} else {
+				m["value"] = val
+			}
+			es = append(es, m)
+		}
+		b, _ := json.Marshal(map[string]interface{}{"characteristics": es})
+		return b
+	}
+	if r, err := sub.request("PUT", "/characteristics", "application/hap+json", body(nil, true)); err != nil || r.status != 204 {
+		return "DUPW=subscribe-failed"
+	}
+	sub.events = nil
+	for r := 0; r < rounds; r++ {
+		b := body(r%2 == 0, false)
+		var wg sync.WaitGroup
+		for _, cc := range []*ctlConn{ca, cb} {
+			wg.Add(1)
+			go func(cc *ctlConn) {
+				defer wg.Done()
+				cc.request("PUT", "/characteristics", "application/hap+json", b)
+			}(cc)
+		}
+		wg.Wait()
+		sub.drainEvents(25 * time.Millisecond)
+		n := 0
+		for _, e := range sub.events {
+			n += strings.Count(e, `"iid"`)
+		}
+		sub.events = nil
+		if n != len(targets) {
+			return fmt.Sprintf("DUPW=events%d_for%d@%d", n, len(targets), r)
+		}
+	}
+	return fmt.Sprintf("DUPW=ok/%d", rounds)
 }
